@@ -156,11 +156,13 @@ func (fc *FnCtx) applyHook(h *Hook, env *Env, what string, in ssa.Instruction, s
 		}
 		us = append(us, upd{u.Name, t})
 	}
-	for _, u := range us {
-		st.Gh[u.name] = fc.vc.sc.define("gh_"+u.name, fc.eng.ghostSort(u.name), u.t)
-	}
+	// lemma / axiom instances speak about the state before the updates (and before the
+	// instruction the hook is attached to takes effect)
 	for _, u := range h.Uses {
 		fc.useLemma(u, env)
+	}
+	for _, u := range us {
+		st.Gh[u.name] = fc.vc.sc.define("gh_"+u.name, fc.eng.ghostSort(u.name), u.t)
 	}
 }
 
